@@ -420,6 +420,12 @@ func runC01(r *ev.Run, thorough bool) int {
 		if err != nil {
 			return
 		}
+		if _, terr := ref.ParseBundleTree(enc, false); terr != nil {
+			// the implementation's serialisation of a bundle it considers valid is not well-formed CBOR / not a bundle
+			sp := core[i]
+			r.Violation("C01/serialised-valid-bundle-malformed", "roundtrip", fmt.Sprintf("the serialisation of a valid bundle cannot be delimited by the reference tokenizer: %v", terr), c01Case{Spec: &sp})
+			return
+		}
 		muts := c01Mutations(enc)
 		if thorough {
 			// pairs: second-level deviations of every accepted first-level deviation (bounded per bundle)
@@ -452,6 +458,72 @@ func runC01(r *ev.Run, thorough bool) int {
 			r.Sample(c01Case{Hex: hex.EncodeToString(muts[len(muts)/2].enc), Mut: muts[len(muts)/2].name})
 		}
 	})
+	// part (c): the serialiser carries no state from one call to the next. For every core bundle and every write
+	// offset k the bundle is serialised into a writer that fails from byte k on; afterwards this bundle and the next
+	// core bundle must serialise to exactly the bytes a fresh serialisation gave before any fault. Sequential on
+	// purpose (the subject is state shared between calls).
+	var nFaults int64
+	{
+		var encs [][]byte
+		var bs []bpv7.Bundle
+		for i := range core {
+			b := core[i].Build()
+			if b.CheckValid() != nil {
+				continue
+			}
+			if enc, err := gen.Ser(&b); err == nil {
+				bs, encs = append(bs, b), append(encs, enc)
+			}
+		}
+		stable := make([]bool, len(bs))
+		for i := range bs {
+			stable[i] = true
+			for _, cb := range bs[i].CanonicalBlocks {
+				if t := cb.TypeCode(); t == bpv7.ExtBlockTypeDTLSRBlock || t == bpv7.ExtBlockTypeProphetBlock {
+					stable[i] = false // map-valued: entry order unspecified
+				}
+			}
+		}
+		stride := 1
+		if !thorough {
+			stride = 3
+		}
+	outer:
+		for i := range bs {
+			if par.Expired() {
+				break
+			}
+			for k := 0; k < len(encs[i]); k += stride {
+				nFaults++
+				fw := &c01FailWriter{left: k}
+				err := func() (e error) {
+					defer func() {
+						if r := recover(); r != nil {
+							e = fmt.Errorf("panic: %v", r)
+						}
+					}()
+					return bs[i].WriteBundle(fw)
+				}()
+				if err == nil {
+					sp := core[i]
+					r.Violation("C01/serialiser-ignores-write-error", "roundtrip", fmt.Sprintf("the writer failed after %d of %d bytes but WriteBundle returned nil", k, len(encs[i])), c01Case{Spec: &sp})
+					break outer
+				}
+				for _, j := range []int{i, (i + 1) % len(bs)} {
+					if !stable[j] {
+						continue // map-valued metadata block: the entry order is unspecified, bytes differ between calls anyway
+					}
+					again, serr := gen.Ser(&bs[j])
+					if serr != nil || !bytes.Equal(again, encs[j]) {
+						sp := core[j]
+						r.Violation("C01/serialisation-depends-on-earlier-failed-serialisation", "roundtrip", fmt.Sprintf("after a serialisation (of core bundle %d) that failed at byte %d, core bundle %d, which serialised to %x before, now gives %x (error %v): state is kept between calls", i, k, j, encs[j], again, serr), c01Case{Spec: &sp})
+						break outer
+					}
+				}
+			}
+		}
+	}
+	r.Add("serialisations_with_injected_write_fault", nFaults)
 	r.Add("mutation_core_bundles", int64(len(core)))
 	r.Add("mutated_encodings", nMut)
 	r.Add("mutated_accepted", nAcc)
@@ -496,4 +568,17 @@ func replayC01(kind string, c json.RawMessage) (string, bool) {
 	}
 	k, d, _ := c01Accepted(enc)
 	return k + ": " + d, k != ""
+}
+
+// c01FailWriter accepts `left` bytes and fails afterwards.
+type c01FailWriter struct{ left int }
+
+func (w *c01FailWriter) Write(p []byte) (int, error) {
+	if len(p) <= w.left {
+		w.left -= len(p)
+		return len(p), nil
+	}
+	n := w.left
+	w.left = 0
+	return n, fmt.Errorf("scripted write failure")
 }
